@@ -296,3 +296,331 @@ func specHeaderV4(op int, htype int, hlen int, hops int, xid string, secs int, f
 //@ contract net.CIDRMask
 //@   trusted
 //@   ensures fresh(result)
+
+// ---------- C17: typed option values and accessors ----------
+// Each value type's FromBytes accepts exactly the RFC layout of its type and reads the RFC value; each accessor returns
+// that interpretation of the raw option value when it is well-formed and the documented default otherwise.
+
+func specBE16(s string) int {
+	if len(s) < 2 {
+		return 0
+	}
+	return int(s[0])*256 + int(s[1])
+}
+func specBE32(s string) int {
+	if len(s) < 4 {
+		return 0
+	}
+	return int(s[0])*16777216 + int(s[1])*65536 + int(s[2])*256 + int(s[3])
+}
+
+//@ contract (*IP).FromBytes
+//@   modifies i
+//@   ensures[accept] (err == nil) == (len(data) == 4)
+//@   ensures[value] err == nil ==> string(*i) == string(data) && fresh(*i) && len(*i) == 4
+
+//@ contract (*IPMask).FromBytes
+//@   modifies im
+//@   ensures[accept] (err == nil) == (len(data) == 4)
+//@   ensures[value] err == nil ==> string(*im) == string(data) && fresh(*im) && len(*im) == 4
+
+//@ contract (*Duration).FromBytes
+//@   modifies d
+//@   ensures[accept] (err == nil) == (len(data) == 4)
+//@   ensures[value] err == nil ==> int(*d) == specBE32(old(string(data)))*1000000000
+
+//@ contract (*Uint16).FromBytes
+//@   modifies o
+//@   ensures[accept] (err == nil) == (len(data) == 2)
+//@   ensures[value] err == nil ==> int(*o) == specBE16(old(string(data)))
+
+//@ contract (*MessageType).FromBytes
+//@   modifies m
+//@   ensures[accept] (err == nil) == (len(data) == 1)
+//@   ensures[value] err == nil ==> int(*m) == int(old(data[0]))
+
+//@ contract (*AutoConfiguration).FromBytes
+//@   modifies o
+//@   ensures[accept] (err == nil) == (len(data) == 1)
+//@   ensures[value] err == nil ==> int(*o) == int(old(data[0]))
+
+// RFC 2132 address lists: one or more 4-byte addresses
+//@ contract (*IPs).FromBytes
+//@   let a0 = string(data)
+//@   modifies i, (*i)[len(*i):cap(*i)]
+//@   ensures[accept] (err == nil) == (len(data) > 0 && len(data)%4 == 0)
+//@   ensures[count] err == nil ==> len(*i) == len(data)/4
+//@   ensures[values] err == nil ==> (forall k int :: {(*i)[k]} 0 <= k && k < len(*i) ==> string((*i)[k]) == a0[4*k:4*k+4] && fresh((*i)[k]))
+//@   ensures[fresh] err == nil ==> fresh(*i)
+//@   loop 0 invariant[pos] ref(buf.Buffer.data) == ref(data) && optPos(buf, data) >= 0 && optPos(buf, data) <= len(data) && len(buf.Buffer.data) == len(data) - optPos(buf, data) && buf.err == nil && optPos(buf, data)%4 == 0
+//@   loop 0 invariant[list] fresh(*i) && allocated(*i) && len(*i) == optPos(buf, data)/4 && ref(*i) != ref(buf) && ref(*i) != ref(buf.Buffer) && ref(i) != ref(*i)
+//@   loop 0 invariant[values] forall k int :: {(*i)[k]} 0 <= k && k < len(*i) ==> string((*i)[k]) == a0[4*k:4*k+4]
+//@   loop 0 invariant[values-fresh] forall k int :: {(*i)[k]} 0 <= k && k < len(*i) ==> fresh((*i)[k]) && allocated((*i)[k]) && len((*i)[k]) == 4 && off((*i)[k]) == 0
+//@   loop 0 invariant[values-distinct] forall k int :: {(*i)[k]} 0 <= k && k < len(*i) ==> ref((*i)[k]) != ref(*i) && ref((*i)[k]) != ref(i) && ref((*i)[k]) != ref(buf) && ref((*i)[k]) != ref(buf.Buffer)
+//@   loop 0 invariant[input] string(data) == a0 && ref(i) != ref(buf) && ref(i) != ref(buf.Buffer)
+
+//@ contract (*DHCPv4).BroadcastAddress
+//@   let v = d.Options[28]
+//@   ensures[wellformed] v != nil && len(v) == 4 ==> string(result) == string(v) && len(result) == 4 && fresh(result)
+//@   ensures[default] v == nil || len(v) != 4 ==> result == nil
+
+//@ contract (*DHCPv4).RequestedIPAddress
+//@   let v = d.Options[50]
+//@   ensures[wellformed] v != nil && len(v) == 4 ==> string(result) == string(v) && len(result) == 4 && fresh(result)
+//@   ensures[default] v == nil || len(v) != 4 ==> result == nil
+
+//@ contract (*DHCPv4).ServerIdentifier
+//@   let v = d.Options[54]
+//@   ensures[wellformed] v != nil && len(v) == 4 ==> string(result) == string(v) && len(result) == 4 && fresh(result)
+//@   ensures[default] v == nil || len(v) != 4 ==> result == nil
+
+//@ contract (*DHCPv4).Router
+//@   let v = d.Options[3]
+//@   ensures[wellformed] v != nil && len(v) > 0 && len(v)%4 == 0 ==> len(result) == len(v)/4 && (forall k int :: {result[k]} 0 <= k && k < len(result) ==> string(result[k]) == string(v)[4*k:4*k+4])
+//@   ensures[default] v == nil || len(v) == 0 || len(v)%4 != 0 ==> result == nil
+
+//@ contract (*DHCPv4).NTPServers
+//@   let v = d.Options[42]
+//@   ensures[wellformed] v != nil && len(v) > 0 && len(v)%4 == 0 ==> len(result) == len(v)/4 && (forall k int :: {result[k]} 0 <= k && k < len(result) ==> string(result[k]) == string(v)[4*k:4*k+4])
+//@   ensures[default] v == nil || len(v) == 0 || len(v)%4 != 0 ==> result == nil
+
+//@ contract (*DHCPv4).NetBIOSNameServers
+//@   let v = d.Options[44]
+//@   ensures[wellformed] v != nil && len(v) > 0 && len(v)%4 == 0 ==> len(result) == len(v)/4 && (forall k int :: {result[k]} 0 <= k && k < len(result) ==> string(result[k]) == string(v)[4*k:4*k+4])
+//@   ensures[default] v == nil || len(v) == 0 || len(v)%4 != 0 ==> result == nil
+
+//@ contract (*DHCPv4).DNS
+//@   let v = d.Options[6]
+//@   ensures[wellformed] v != nil && len(v) > 0 && len(v)%4 == 0 ==> len(result) == len(v)/4 && (forall k int :: {result[k]} 0 <= k && k < len(result) ==> string(result[k]) == string(v)[4*k:4*k+4])
+//@   ensures[default] v == nil || len(v) == 0 || len(v)%4 != 0 ==> result == nil
+
+//@ contract (*DHCPv4).DomainName
+//@   let v = d.Options[15]
+//@   ensures[value] result == string(v)
+
+//@ contract (*DHCPv4).RootPath
+//@   let v = d.Options[17]
+//@   ensures[value] result == string(v)
+
+//@ contract (*DHCPv4).ClassIdentifier
+//@   let v = d.Options[60]
+//@   ensures[value] result == string(v)
+
+//@ contract (*DHCPv4).Message
+//@   let v = d.Options[56]
+//@   ensures[value] result == string(v)
+
+//@ contract (*DHCPv4).IPAddressLeaseTime
+//@   let v = d.Options[51]
+//@   ensures[wellformed] v != nil && len(v) == 4 ==> int(result) == specBE32(string(v))*1000000000
+//@   ensures[default] v == nil || len(v) != 4 ==> result == def
+
+//@ contract (*DHCPv4).IPAddressRenewalTime
+//@   let v = d.Options[58]
+//@   ensures[wellformed] v != nil && len(v) == 4 ==> int(result) == specBE32(string(v))*1000000000
+//@   ensures[default] v == nil || len(v) != 4 ==> result == def
+
+//@ contract (*DHCPv4).IPAddressRebindingTime
+//@   let v = d.Options[59]
+//@   ensures[wellformed] v != nil && len(v) == 4 ==> int(result) == specBE32(string(v))*1000000000
+//@   ensures[default] v == nil || len(v) != 4 ==> result == def
+
+//@ contract (*DHCPv4).IPv6OnlyPreferred
+//@   let v = d.Options[108]
+//@   ensures[wellformed] v != nil && len(v) == 4 ==> result1 && int(result0) == specBE32(string(v))*1000000000
+//@   ensures[default] v == nil || len(v) != 4 ==> !result1 && int(result0) == 0
+
+//@ contract (*DHCPv4).MaxMessageSize
+//@   let v = d.Options[57]
+//@   ensures[wellformed] v != nil && len(v) == 2 ==> err == nil && int(result0) == specBE16(string(v))
+//@   ensures[default] v == nil || len(v) != 2 ==> err != nil && result0 == 0
+
+//@ contract (*DHCPv4).AutoConfigure
+//@   let v = d.Options[116]
+//@   ensures[wellformed] v != nil && len(v) == 1 ==> result1 && int(result0) == int(v[0])
+//@   ensures[default] v == nil || len(v) != 1 ==> !result1 && int(result0) == 0
+
+//@ contract (*DHCPv4).MessageType
+//@   let v = d.Options[53]
+//@   ensures[wellformed] v != nil && len(v) == 1 ==> int(result) == int(v[0])
+//@   ensures[default] v == nil || len(v) != 1 ==> int(result) == 0
+
+//@ contract (*DHCPv4).SubnetMask
+//@   let v = d.Options[1]
+//@   ensures[wellformed] v != nil && len(v) == 4 ==> string(result) == string(v) && len(result) == 4 && fresh(result)
+//@   ensures[default] v == nil || len(v) != 4 ==> result == nil
+
+// RFC 3004 user class: one or more (length octet > 0, data) items
+//@ contract specStringsOK
+//@   decreases len(a) - p
+func specStringsOK(a string, p int) bool {
+	if p < 0 || p > len(a) {
+		return false
+	}
+	if p == len(a) {
+		return true
+	}
+	if a[p] == 0 || p+1+int(a[p]) > len(a) {
+		return false
+	}
+	return specStringsOK(a, p+1+int(a[p]))
+}
+
+//@ contract specStrings
+//@   decreases len(a) - p
+func specStrings(a string, p int, acc []string) []string {
+	if p < 0 || p >= len(a) {
+		return acc
+	}
+	if a[p] == 0 || p+1+int(a[p]) > len(a) {
+		return acc
+	}
+	return specStrings(a, p+1+int(a[p]), append(acc, a[p+1:p+1+int(a[p])]))
+}
+
+//@ contract (*Strings).FromBytes
+//@   let a0 = string(data)
+//@   modifies o, (*o)[len(*o):cap(*o)]
+//@   ensures[accept] (err == nil) == (len(data) > 0 && specStringsOK(a0, 0))
+//@   ensures[values] err == nil ==> seq(*o) == specStrings(a0, 0, []string{})
+//@   loop 0 invariant[pos] ref(buf.Buffer.data) == ref(data) && optPos(buf, data) >= 0 && optPos(buf, data) <= len(data) && len(buf.Buffer.data) == len(data) - optPos(buf, data)
+//@   loop 0 invariant[list] fresh(*o) && allocated(*o) && ref(*o) != ref(buf) && ref(*o) != ref(buf.Buffer)
+//@   loop 0 invariant[input] string(data) == a0 && ref(o) != ref(buf) && ref(o) != ref(buf.Buffer) && ref(o) != ref(*o)
+//@   loop 0 invariant[work-ok] buf.err == nil ==> specStringsOK(a0, 0) == specStringsOK(a0, optPos(buf, data))
+//@   loop 0 invariant[work-values] buf.err == nil ==> specStrings(a0, 0, []string{}) == specStrings(a0, optPos(buf, data), seq(*o))
+//@   loop 0 invariant[sticky] buf.err != nil ==> !specStringsOK(a0, 0)
+
+// RFC 3442 classless routes: (mask width <= 32, ceil(width/8) destination octets, 4 router octets)*
+//@ contract specRoutesOK
+//@   decreases len(a) - p
+func specRoutesOK(a string, p int) bool {
+	if p < 0 || p > len(a) {
+		return false
+	}
+	if p == len(a) {
+		return true
+	}
+	if a[p] > 32 || p+1+(int(a[p])+7)/8+4 > len(a) {
+		return false
+	}
+	return specRoutesOK(a, p+1+(int(a[p])+7)/8+4)
+}
+
+// RFC 3925 vendor-identifying vendor class: (4-byte enterprise number, length octet, data)*
+//@ contract specVIVCOK
+//@   decreases len(a) - p
+func specVIVCOK(a string, p int) bool {
+	if p < 0 || p > len(a) {
+		return false
+	}
+	if p == len(a) {
+		return true
+	}
+	if p+5 > len(a) || p+5+int(a[p+4]) > len(a) {
+		return false
+	}
+	return specVIVCOK(a, p+5+int(a[p+4]))
+}
+
+//@ contract (*VIVCIdentifiers).FromBytes
+//@   let a0 = string(data)
+//@   requires ref(*ids) != ref(ids) && ref(*ids) != ref(data)
+//@   modifies ids, (*ids)[len(*ids):cap(*ids)]
+//@   ensures[accept] (err == nil) == specVIVCOK(a0, 0)
+//@   loop 0 invariant[pos] ref(buf.Buffer.data) == ref(data) && optPos(buf, data) >= 0 && optPos(buf, data) <= len(data) && len(buf.Buffer.data) == len(data) - optPos(buf, data)
+//@   loop 0 invariant[input] string(data) == a0 && ref(ids) != ref(buf) && ref(ids) != ref(buf.Buffer)
+//@   loop 0 invariant[list] (ref(*ids) == old(ref(*ids)) || fresh(*ids)) && (*ids == nil || allocated(*ids)) && ref(*ids) != ref(buf) && ref(*ids) != ref(buf.Buffer) && ref(*ids) != ref(ids) && off(*ids) >= 0 && len(*ids) <= cap(*ids) && len(*ids) >= 0
+//@   loop 0 invariant[work-ok] buf.err == nil ==> specVIVCOK(a0, 0) == specVIVCOK(a0, optPos(buf, data))
+//@   loop 0 invariant[sticky] buf.err != nil ==> !specVIVCOK(a0, 0)
+
+//@ contract (*Routes).FromBytes
+//@   let a0 = string(p)
+//@   requires ref(*r) != ref(r) && ref(*r) != ref(p)
+//@   modifies r, (*r)[len(*r):cap(*r)]
+//@   ensures[accept] (err == nil) == specRoutesOK(a0, 0)
+//@   loop 0 invariant[pos] ref(buf.Buffer.data) == ref(p) && optPos(buf, p) >= 0 && optPos(buf, p) <= len(p) && len(buf.Buffer.data) == len(p) - optPos(buf, p) && buf.err == nil
+//@   loop 0 invariant[input] string(p) == a0 && ref(r) != ref(buf) && ref(r) != ref(buf.Buffer)
+//@   loop 0 invariant[list] (ref(*r) == old(ref(*r)) || fresh(*r)) && (*r == nil || allocated(*r)) && ref(*r) != ref(buf) && ref(*r) != ref(buf.Buffer) && ref(*r) != ref(r) && off(*r) >= 0 && len(*r) <= cap(*r) && len(*r) >= 0
+//@   loop 0 invariant[work-ok] specRoutesOK(a0, 0) == specRoutesOK(a0, optPos(buf, p))
+
+//@ contract (*OptionCodeList).FromBytes
+//@   modifies ol
+//@   ensures[accept] err == nil
+//@   ensures[count] len(*ol) == len(data) && fresh(*ol) && *ol != nil
+//@   loop 0 invariant[pos] ref(buf.Buffer.data) == ref(data) && optPos(buf, data) >= 0 && optPos(buf, data) <= len(data) && len(buf.Buffer.data) == len(data) - optPos(buf, data) && buf.err == nil
+//@   loop 0 invariant[list] fresh(*ol) && allocated(*ol) && len(*ol) == optPos(buf, data) && ref(ol) != ref(buf) && ref(ol) != ref(buf.Buffer) && ref(*ol) != ref(buf) && ref(*ol) != ref(buf.Buffer) && ref(*ol) != ref(ol)
+
+// specTrimNul: s without its trailing NUL bytes (what strings.TrimRight(s, "\x00") returns)
+//@ contract specTrimNulLen
+//@   decreases n
+//@   ensures result >= 0 && result <= n || n < 0
+func specTrimNulLen(s string, n int) int {
+	if n <= 0 || n > len(s) {
+		return 0
+	}
+	if s[n-1] != 0 {
+		return n
+	}
+	return specTrimNulLen(s, n-1)
+}
+
+func specTrimNul(s string) string { return s[:specTrimNulLen(s, len(s))] }
+
+//@ contract strings.TrimRight
+//@   trusted
+//@   ensures cutset == "\x00" ==> result == specTrimNul(s)
+
+//@ contract (*RelayOptions).FromBytes
+//@   let a0 = string(data)
+//@   modifies r
+//@   ensures[accept] (err == nil) == specOptsOK(a0, 0, false)
+//@   ensures[codes] err == nil ==> r.Options != nil && (forall c uint8 :: {mapval(r.Options, c)} {mapdom(r.Options, c)} has(r.Options, c) == specOptHas(a0, 0, c, false))
+//@   ensures[values] err == nil ==> (forall c uint8 :: {mapval(r.Options, c)} {mapdom(r.Options, c)} string(r.Options[c]) == specOptVal(a0, 0, c, ""))
+
+//@ contract (*DHCPv4).HostName
+//@   let v = d.Options[12]
+//@   ensures[value] result == specTrimNul(string(v))
+//@ contract (*DHCPv4).BootFileNameOption
+//@   let v = d.Options[67]
+//@   ensures[value] result == specTrimNul(string(v))
+//@ contract (*DHCPv4).TFTPServerName
+//@   let v = d.Options[66]
+//@   ensures[value] result == specTrimNul(string(v))
+
+//@ contract (*DHCPv4).ParameterRequestList
+//@   let v = d.Options[55]
+//@   ensures[wellformed] v != nil ==> len(result) == len(v) && result != nil
+//@   ensures[default] v == nil ==> result == nil
+
+//@ contract (*DHCPv4).RelayAgentInfo
+//@   let v = d.Options[82]
+//@   let a0 = string(d.Options[82])
+//@   ensures[wellformed] v != nil && specOptsOK(a0, 0, false) ==> result != nil && result.Options != nil && (forall c uint8 :: {mapval(result.Options, c)} {mapdom(result.Options, c)} has(result.Options, c) == specOptHas(a0, 0, c, false) && string(result.Options[c]) == specOptVal(a0, 0, c, ""))
+//@   ensures[default] v == nil || !specOptsOK(a0, 0, false) ==> result == nil
+
+//@ contract (*DHCPv4).UserClass
+//@   let v = d.Options[77]
+//@   let a0 = string(d.Options[77])
+//@   ensures[wellformed] v != nil && len(v) > 0 && specStringsOK(a0, 0) ==> seq(result) == specStrings(a0, 0, []string{})
+//@   ensures[fallback] v != nil && !(len(v) > 0 && specStringsOK(a0, 0)) ==> len(result) == 1 && result[0] == a0
+//@   ensures[default] v == nil ==> result == nil
+
+//@ contract (*DHCPv4).VIVC
+//@   let v = d.Options[124]
+//@   ensures[wellformed] v != nil && specVIVCOK(string(v), 0) ==> true
+//@   ensures[default] v == nil || !specVIVCOK(string(v), 0) ==> result == nil
+
+//@ contract (*DHCPv4).ClasslessStaticRoute
+//@   let v = d.Options[121]
+//@   ensures[default] v == nil || !specRoutesOK(string(v), 0) ==> result == nil
+
+//@ contract (*DHCPv4).DomainSearch
+//@   let v = d.Options[119]
+//@   let a0 = string(d.Options[119])
+//@   ensures[wellformed] v != nil && rfc1035label.specLabelsStatus(a0, 0, false, 0) == 0 ==> result != nil && seq(result.Labels) == rfc1035label.specLabels(a0, 0, "", false, 0, []string{})
+//@   ensures[default] v == nil || rfc1035label.specLabelsStatus(a0, 0, false, 0) == 1 ==> result == nil
+
+//@ contract (*DHCPv4).ClientArch
+//@   let v = d.Options[93]
+//@   ensures[wellformed] v != nil && len(v) > 0 && len(v)%2 == 0 ==> len(result) == len(v)/2 && (forall k int :: {result[k]} 0 <= k && k < len(result) ==> int(result[k]) == int(string(v)[2*k])*256 + int(string(v)[2*k+1]))
+//@   ensures[default] v == nil || len(v) == 0 || len(v)%2 != 0 ==> result == nil
